@@ -552,6 +552,7 @@ func directedSets(yield func(Case) bool) {
 		{"iterator-type", "raise(\"Function is an iterator\")"}, {"eoi-type", "raise(\"End of iteration was reached\")"}, {"continue-type", "raise(\"End of iteration step - Continue iteration\")"},
 		{"return-type", "raise(\"*** return ***\")"}, {"range-call", "range(1)"}, {"like-bad-pattern", "\"a\" like \"(\""}, {"import-missing", "import \"nope\" as x"},
 		{"import-broken", "import \"bad\" as x"}, {"import-failing", "import \"err\" as x"}, {"nested-raise", "try {\n    raise()\n} finally {\n    a := 1\n}"},
+		{"through-function", "func ff() {\n    raise(\"T\", \"d\", [1])\n}\nff()"}, {"runtime-through-functions", "func f1() {\n    return 1 + \"a\"\n}\nfunc f2() {\n    return f1()\n}\nf2()"},
 	}
 	trys := []struct{ form, head, tail string }{
 		{"bare", "", ""},
@@ -569,6 +570,16 @@ func directedSets(yield func(Case) bool) {
 		{"in-loop", "for i in [1, 2] {\n    try {\n", "\n    } except e {\n        continue\n    }\n}"},
 		{"in-func", "func f() {\n    try {\n", "\n    } except e {\n        return e\n    }\n}\nx := f()\nlog(x)"},
 		{"log-error", "try {\n", "\n} except e {\n    log(e)\n    error(e, e)\n    debug(e.type)\n}"},
+	}
+	// every field of the error object under equality, membership, map key, len, iteration, interpolation and arithmetic
+	for _, f := range []string{"type", "detail", "error", "pos", "line", "source", "trace", "data", "nofield"} {
+		for _, op := range []struct{ n, s string }{
+			{"eq", "a := e.%s == e.%s"}, {"neq", "a := e.%s != [e.%s]"}, {"in", "a := e.%s in [e.%s, [e.%s]]"}, {"key", "a := {e.%s : 1}"}, {"len", "a := len(e.%s)"},
+			{"iter", "for x in e.%s {\n        a := x\n    }"}, {"interp", "a := \"{{e.%s}}\""}, {"arith", "a := e.%s + 1"}, {"index", "a := e.%s[0]"}, {"concat", "a := concat(e.%s, e.%s)"},
+		} {
+			body := strings.ReplaceAll(op.s, "%s", f)
+			trys = append(trys, struct{ form, head, tail string }{"except-field-" + f + "-" + op.n, "try {\n", "\n} except e {\n    " + body + "\n}"})
+		}
 	}
 	for _, r := range raises {
 		for _, t := range trys {
